@@ -51,7 +51,7 @@ def run_scn(ctx, scenarios, monitor, witness_ids=(), rule="", assumptions=None, 
         # scenarios that carry harness-side ground truth (keys c03, c05, c09, ...) are not shrunk: dropping an operation
         # would silently invalidate the ground truth and the "minimised" replay would fail on correct code as well
         if lst and isinstance(lst[0].get("replay"), dict) and "ops" in lst[0]["replay"] and len(lst[0]["replay"]["ops"]) > 2 \
-                and not any(re.fullmatch(r"c\d\d", k) for k in lst[0]["replay"]):
+                and not any(re.fullmatch(r"c\d\d", k) for k in lst[0]["replay"]) and not re.match(r"c\d\d-", str(lst[0]["replay"].get("profile", ""))):
             target = lst[0]
             key = target["what"][:40]
 
